@@ -36,6 +36,8 @@ class KernelProp(Prop):
         # the scheduler's choice of which waiter runs first after a failed generation is
         # taken from the observation (the model accepts any waiter)
         ops = [({**op, "next": r["next"]} if "next" in r else op) for op, r in zip(case["ops"], impl)]
+        # the model's task id of an async lookup is only a label: use the lookup's own id
+        ops = [({**op, "t": op["lid"]} if op["op"] == "get" and "lid" in op else op) for op in ops]
         return {"kind": "ctx", "ops": ops}
 
     def compare(self, case, impl, model):
@@ -46,6 +48,31 @@ class KernelProp(Prop):
             if m["res"] != sorted_tasks(r["res"]) or m["ev"] != r["ev"]:
                 return (f"step {i} {case['ops'][i]}: model {m} vs implementation {r}")
         return None
+
+    tags: tuple[str, ...] = ()
+
+    def monitor(self, case, impl):
+        from .monitors_kernel import monitor_case
+
+        fails = monitor_case(case, impl)
+        out = []
+        for tag, msg in fails:
+            if tag in self.tags or tag == "HARNESS":
+                m = f"[{tag}] {msg}"
+                if m not in out:
+                    out.append(m)
+        return out
+
+    def features(self, case, impl):
+        f = set()
+        for op, r in zip(case["ops"], impl):
+            for s in r["res"]:
+                head = s.split(" ")[0]
+                f.add(f"{op['op']}:{head}")
+            if r["ev"]:
+                f.add("event")
+        f.add("backend_" + case.get("backend", "asyncio"))
+        return sorted(f)
 
     def shrink(self, case) -> Iterator[dict[str, Any]]:
         from .gen_kernel import valid_ops
